@@ -33,6 +33,7 @@ def run(ctx, R, tier):
     from ..enginea import run_engine_a
     run_engine_a(R, F, groups=('rt',), effects=('free',), loops=False, rule_prefix='A')
     recycle(F, R)
+    sweep(F, R)
     drain(F, R)
     errs(F, R)
     drops(F, R)
@@ -91,6 +92,26 @@ def recycle(F, R):
             ok = ok and must_pass(u, [rm[0][1]['t']], [x for l in u.loops() for x in [l['header']]] + returns(u), [push[0][0]])
         R.check(ok, 'B.C08.recycle', 'SelfReferential::remove_unused', 'a removed resource is not handed to the unused ring on every path',
                 detail='resources.remove(key) -> unused_resource_producer.push', where=u.file)
+
+
+def sweep(F, R):
+    """Every storage owner refills/sweeps its storage on every callback: remove_and_add lies on every path of on_start_processing."""
+    from .c07 import OWNERS
+    n = 0
+    for fn, field, _ in OWNERS:
+        b = F.body(fn)
+        if b is None:
+            continue
+        ra = [bb for bb, t in calls_where(b, lambda p, t: p.endswith('ResourceStorage::<T>::remove_and_add'))
+              if (self_field_of_call(b, b.blocks[bb]['term'], 0) or '').endswith('.' + field)]
+        if not ra:
+            continue
+        n += 1
+        R.check(all(b.dominates(ra[0], r) for r in b.return_blocks()) and not b.in_loop(ra[0]), 'B.C08.sweep', '%s.%s' % (fn.rsplit('::', 1)[0], field),
+                '%s can return without sweeping %s: finished or dropped resources keep their slots and new ones are not adopted '
+                '(creation keeps failing with the limit error although fewer than capacity are alive)' % (fn, field),
+                detail={'owner': fn, 'storage': field}, where=b.where(ra[0]))
+    R.floor('B.C08.sweep', n, 8)
 
 
 def drain(F, R):
